@@ -12,6 +12,12 @@ import (
 	"golang.org/x/sys/unix"
 )
 
+// sameRdev reports whether the existing device node has the device number rdev.
+func sameRdev(st fs.FileInfo, rdev int32) bool {
+	stt, ok := st.Sys().(*syscall.Stat_t)
+	return ok && int32(stt.Rdev) == rdev
+}
+
 func (rt *Transfer) createDevice(f *File, st fs.FileInfo) error {
 	base := filepath.Base(f.Name)
 	parentDir, err := rt.DestRoot.OpenFile(filepath.Dir(f.Name), 0, 0)
@@ -24,7 +30,13 @@ func (rt *Transfer) createDevice(f *File, st fs.FileInfo) error {
 	switch mode {
 	case rsync.S_IFCHR:
 		if st != nil && st.Mode().Type()&os.ModeCharDevice != 0 {
-			return nil // file of correct type exists
+			if sameRdev(st, f.Rdev) {
+				return nil // file of correct type exists
+			}
+			// same type, but a different device number: recreate the node
+			if err := rt.DestRoot.Remove(f.Name); err != nil {
+				return err
+			}
 		}
 		return unix.Mknodat(int(parentDir.Fd()), base, uint32(perm)|syscall.S_IFCHR, int(f.Rdev))
 
@@ -32,7 +44,13 @@ func (rt *Transfer) createDevice(f *File, st fs.FileInfo) error {
 		// os.ModeDevice is set for character devices, too
 		if st != nil && st.Mode().Type()&os.ModeDevice != 0 &&
 			st.Mode().Type()&os.ModeCharDevice == 0 {
-			return nil // file of correct type exists
+			if sameRdev(st, f.Rdev) {
+				return nil // file of correct type exists
+			}
+			// same type, but a different device number: recreate the node
+			if err := rt.DestRoot.Remove(f.Name); err != nil {
+				return err
+			}
 		}
 
 		return unix.Mknodat(int(parentDir.Fd()), base, uint32(perm)|syscall.S_IFBLK, int(f.Rdev))
